@@ -58,6 +58,8 @@ const K_S6: &str = "C03:phrase-slop3-count-vs-score-differ";
 const K_PANIC_PHRASE: &str = "C03:excluded-phrase-scorer-seek-danger-debug-assert";
 const K_IP_OVERFLOW: &str = "C03:ip-range-excluded-bound-overflow";
 const K_FZP: &str = "C03:fuzzy-prefix-forgets-improvable-prefix-match";
+const K_RANGE_UNDERFLOW: &str = "C03:excluded-range-docset-seek-distance-underflow";
+const K_BWI_JSON: &str = "C03:block-wand-intersection-json-numeric-term-panic";
 const K_S6B: &str = "C03:phrase-slop3-differs-from-budget-meaning";
 
 fn fld(id: u32) -> Field {
@@ -725,6 +727,15 @@ impl Q {
         let is = |b: &Bd, v: u128| matches!(b, Bd::Excl(TermS { v: Val::Ip(s), .. }) if s.parse::<u128>().ok() == Some(v));
         self.any(&|q| matches!(q, Q::Range { f, lo, hi, fast: true, .. } if *f == F_IP && (is(hi, 0) || is(lo, u128::MAX))))
     }
+    /// a fast-field range somewhere below a MUST_NOT clause
+    fn sig_excluded_fast_range(&self) -> bool {
+        self.any(&|q| matches!(q, Q::Bool(cs, _) if cs.iter().any(|(o, sub)| *o == Oc::MustNot && sub.any(&|x| matches!(x, Q::Range { fast: true, .. } | Q::JRange { .. })))))
+    }
+    /// a boolean node with at least 2 MUST term clauses one of which is a numeric JSON term
+    fn sig_must_json_int(&self) -> bool {
+        self.any(&|q| matches!(q, Q::Bool(cs, _) if cs.iter().filter(|(o, sub)| *o == Oc::Must && matches!(sub, Q::Term(_))).count() >= 2
+            && cs.iter().any(|(o, sub)| *o == Oc::Must && matches!(sub, Q::Term(TermS { v: Val::JInt(..), .. })))))
+    }
     /// a fuzzy query in prefix mode
     fn sig_fzp(&self) -> bool {
         self.any(&|q| matches!(q, Q::Fuzzy { prefix: true, .. }))
@@ -1145,6 +1156,12 @@ fn check_queries(ctx: &mut Ctx, spec: &CorpusSpec, b: &Built, qs: &[Q]) {
                 let key = if msg.contains("phrase_scorer.rs") && msg.contains("should be greater than or equal to doc (") && q.sig_excluded_phrase() { K_PANIC_PHRASE }
                     // bound_range_inclusive_ip: `Excluded(0)` as upper / `Excluded(u128::MAX)` as lower bound
                     else if msg.contains("range_query_fastfield.rs") && msg.contains("with overflow") && q.sig_ip_overflow() { K_IP_OVERFLOW }
+                    // RangeDocSet::is_last_seek_distance_large: `new_seek - last_seek_pos` when an excluded
+                    // fast-field range docset is asked (seek_danger) for a target behind its last seek
+                    else if msg.contains("fast_field_range_doc_set.rs") && msg.contains("subtract with overflow") && q.sig_excluded_fast_range() { K_RANGE_UNDERFLOW }
+                    // block_wand_intersection slices the leader's (empty) freq array: a conjunction of term
+                    // queries one of which is a numeric JSON term read with frequencies
+                    else if msg.contains("block_wand_intersection.rs") && msg.contains("out of range for slice of length 0") && q.sig_must_json_int() { K_BWI_JSON }
                     else { "C03:panic" };
                 ctx.report.violation("oracle", key, format!("search panicked ({}) for {}", msg, qstrs[i]), case);
                 continue;
@@ -1350,6 +1367,19 @@ fn gen_corpus(rng: &mut Rng, size_class: u64) -> CorpusSpec {
 struct Pools {
     words: Vec<String>,
     tags: Vec<String>,
+    /// body token sequences (by position) of a sample of documents: phrases taken from them match
+    seqs: Vec<Vec<String>>,
+    /// the most frequent body words (cheap drivers for conjunctions / exclusions)
+    freq: Vec<String>,
+}
+
+/// consecutive tokens of some document (so that the phrase occurs at least once)
+fn seq_terms(rng: &mut Rng, pools: &Pools, n: usize) -> Option<Vec<String>> {
+    let cands: Vec<&Vec<String>> = pools.seqs.iter().filter(|s| s.len() >= n).collect();
+    if cands.is_empty() { return None; }
+    let s = cands[rng.usize_below(cands.len())];
+    let at = rng.usize_below(s.len() - n + 1);
+    Some(s[at..at + n].to_vec())
 }
 
 fn text_term(rng: &mut Rng, f: u32, pools: &Pools) -> TermS {
@@ -1408,13 +1438,15 @@ fn gen_leaf(rng: &mut Rng, pools: &Pools) -> Q {
         7..=9 => {
             let wide = rng.chance(1, 4); let n = 2 + rng.usize_below(if wide { 3 } else { 1 });
             let mut off = 0usize;
-            let terms = (0..n).map(|_| { let o = off; off += 1 + (rng.below(5) == 0) as usize; (o, rng.pick(&pools.words).clone()) }).collect::<Vec<_>>();
+            let from_doc = if rng.chance(1, 2) { seq_terms(rng, pools, n) } else { None };
+            let terms = (0..n).map(|i| { let o = off; off += 1 + (rng.below(5) == 0 && from_doc.is_none()) as usize; (o, match &from_doc { Some(ws) => ws[i].clone(), None => rng.pick(&pools.words).clone() }) }).collect::<Vec<_>>();
             let slop = if rng.chance(1, 2) { 0 } else { 1 + rng.below(3) as u32 };
             Q::Phrase { f: F_BODY, terms, slop }
         }
         10 | 11 => {
             let n = 1 + rng.usize_below(3);
-            let mut terms: Vec<(usize, String)> = (0..n).map(|i| (i, rng.pick(&pools.words).clone())).collect();
+            let from_doc = if rng.chance(2, 3) { seq_terms(rng, pools, n) } else { None };
+            let mut terms: Vec<(usize, String)> = (0..n).map(|i| (i, match &from_doc { Some(ws) => ws[i].clone(), None => rng.pick(&pools.words).clone() })).collect();
             let last = terms.last_mut().unwrap();
             let cs: Vec<char> = last.1.chars().collect();
             last.1 = cs[..1 + rng.usize_below(cs.len())].iter().collect();
@@ -1474,6 +1506,67 @@ fn gen_leaf(rng: &mut Rng, pools: &Pools) -> Q {
     }
 }
 
+/// leaves whose scorer is a bare `AllScorer` when the column / term covers the whole segment
+fn all_like_leaf(rng: &mut Rng, pools: &Pools) -> Q {
+    match rng.below(5) {
+        0 => Q::All,
+        1 => Q::Exists(F_ID),
+        2 => Q::Range { f: F_ID, lo: Bd::Incl(TermS { f: F_ID, v: Val::U64(0) }), hi: Bd::Unb, fast: true, inverted: false },
+        3 => Q::Exists(F_NUM),
+        _ => Q::Term(TermS { f: F_BODY, v: Val::Str(if rng.chance(1, 2) { "every".into() } else { rng.pick(&pools.freq).clone() }) }),
+    }
+}
+
+/// seek-driven contexts for a leaf: the leaf next to another MUST clause (Intersection,
+/// go_to_first_doc, seek / seek_danger), as a MUST_NOT clause (Exclude), and next to another
+/// positional leaf; drivers are frequent terms so that consecutive candidate documents occur
+fn context_queries(rng: &mut Rng, pools: &Pools, leaf: &Q) -> Vec<Q> {
+    let freq = |rng: &mut Rng| Q::Term(TermS { f: F_BODY, v: Val::Str(rng.pick(&pools.freq).clone()) });
+    let mut out = vec![
+        Q::Bool(vec![(Oc::Must, leaf.clone()), (Oc::Must, freq(rng))], None),
+        Q::Bool(vec![(Oc::Must, freq(rng)), (Oc::MustNot, leaf.clone())], None),
+        Q::Bool(vec![(Oc::Must, freq(rng)), (Oc::Must, leaf.clone()), (Oc::Should, freq(rng))], None),
+    ];
+    match rng.below(3) {
+        0 => out.push(Q::Bool(vec![(Oc::Must, leaf.clone()), (Oc::Must, all_like_leaf(rng, pools))], None)),
+        1 => out.push(Q::Bool(vec![(Oc::Should, leaf.clone()), (Oc::Should, freq(rng)), (Oc::Should, freq(rng))], Some(2))),
+        _ => out.push(Q::Bool(vec![(Oc::Must, Q::Exists(F_NUM)), (Oc::MustNot, leaf.clone()), (Oc::MustNot, freq(rng))], None)),
+    }
+    out
+}
+
+/// a positional / automaton leaf that is likely to match (taken from a document)
+fn positional_leaf(rng: &mut Rng, pools: &Pools) -> Q {
+    match rng.below(6) {
+        0 | 1 => {
+            // phrase-prefix with 1 full term + prefix (SinglePrefix), 2 (MultiPrefix) or prefix only
+            let n = 1 + rng.usize_below(3);
+            let ws = seq_terms(rng, pools, n).unwrap_or_else(|| (0..n).map(|_| rng.pick(&pools.words).clone()).collect());
+            let mut terms: Vec<(usize, String)> = ws.into_iter().enumerate().collect();
+            let last = terms.last_mut().unwrap();
+            let cs: Vec<char> = last.1.chars().collect();
+            last.1 = cs[..1 + rng.usize_below(cs.len())].iter().collect();
+            Q::PhrasePrefix { f: F_BODY, terms }
+        }
+        2 => {
+            let ws = seq_terms(rng, pools, 2).unwrap_or_else(|| vec![rng.pick(&pools.words).clone(), rng.pick(&pools.words).clone()]);
+            let mut terms: Vec<(usize, String)> = ws.into_iter().enumerate().collect();
+            terms[1].1 = terms[1].1.chars().take(1).collect();
+            Q::PhrasePrefix { f: F_BODY, terms }
+        }
+        3 => {
+            let n = 2 + rng.usize_below(2);
+            let ws = seq_terms(rng, pools, n).unwrap_or_else(|| (0..n).map(|_| rng.pick(&pools.words).clone()).collect());
+            Q::Phrase { f: F_BODY, terms: ws.into_iter().enumerate().collect(), slop: 0 }
+        }
+        4 => {
+            let ws = seq_terms(rng, pools, 3).unwrap_or_else(|| (0..3).map(|_| rng.pick(&pools.words).clone()).collect());
+            Q::Phrase { f: F_BODY, terms: vec![(0, ws[0].clone()), (1, ws[2].clone())], slop: 1 + rng.below(2) as u32 }
+        }
+        _ => gen_leaf(rng, pools),
+    }
+}
+
 fn gen_query(rng: &mut Rng, depth: u32, pools: &Pools) -> Q {
     if depth == 0 {
         return gen_leaf(rng, pools);
@@ -1483,6 +1576,25 @@ fn gen_query(rng: &mut Rng, depth: u32, pools: &Pools) -> Q {
         5 => Q::Boost(Box::new(gen_query(rng, depth - 1, pools))),
         6 => Q::Const(Box::new(gen_query(rng, depth - 1, pools))),
         7 | 8 => Q::DisMax((0..rng.usize_below(4)).map(|_| gen_query(rng, depth - 1, pools)).collect()),
+        9 | 10 => {
+            // SHOULD-heavy family: 3..6 clauses, a good share of them leaves that resolve to a
+            // bare AllScorer (AllQuery, exists / full range on a full column, an all-docs term with
+            // scoring off) or to EmptyScorer, minimum_should_match anywhere in 1..=n
+            let n = 3 + rng.usize_below(4);
+            let mut cs: Vec<(Oc, Q)> = (0..n).map(|_| {
+                let q = match rng.below(8) {
+                    0 | 1 => all_like_leaf(rng, pools),
+                    2 => Q::Empty,
+                    3 => Q::Term(TermS { f: F_BODY, v: Val::Str(rng.pick(&pools.freq).clone()) }),
+                    _ => gen_query(rng, depth - 1, pools),
+                };
+                (Oc::Should, q)
+            }).collect();
+            if rng.chance(1, 4) { cs.push((Oc::Must, gen_leaf(rng, pools))); }
+            if rng.chance(1, 4) { cs.push((Oc::MustNot, gen_leaf(rng, pools))); }
+            rng.shuffle(&mut cs);
+            Q::Bool(cs, Some(1 + rng.usize_below(n)))
+        }
         _ => {
             let n = match rng.below(10) { 0 => 0, 1 | 2 => 1, 3..=5 => 2, 6 | 7 => 3, 8 => 4, _ => 5 };
             let style = rng.below(6);
@@ -1509,7 +1621,32 @@ fn pools_of(b: &Built) -> Pools {
     if words.is_empty() { words = vec!["a".into(), "b".into()]; }
     let mut tags = take(F_TAG);
     if tags.is_empty() { tags = vec!["red".into()]; }
-    Pools { words, tags }
+    // token sequences and document frequencies of the body field
+    let mut ids: Vec<&u64> = b.by_id.keys().collect();
+    ids.sort();
+    let mut seqs = vec![];
+    let mut df: BTreeMap<String, usize> = BTreeMap::new();
+    for id in ids {
+        let d = &b.by_id[id];
+        let mut toks: Vec<(u32, String)> = vec![];
+        for (f, t, ps) in &d.postings {
+            if *f == F_BODY {
+                if let Ok(w) = String::from_utf8(t.clone()) {
+                    *df.entry(w.clone()).or_default() += 1;
+                    for p in ps { toks.push((*p, w.clone())); }
+                }
+            }
+        }
+        toks.sort();
+        if toks.len() >= 2 && seqs.len() < 64 {
+            seqs.push(toks.into_iter().map(|x| x.1).collect());
+        }
+    }
+    let mut by_df: Vec<(usize, String)> = df.into_iter().map(|(w, n)| (n, w)).collect();
+    by_df.sort_by(|a, b| b.cmp(a));
+    let mut freq: Vec<String> = by_df.into_iter().take(4).map(|x| x.1).collect();
+    if freq.is_empty() { freq = vec!["a".into()]; }
+    Pools { words, tags, seqs, freq }
 }
 
 // ---------------------------------------------------------------------------------------------
@@ -1689,7 +1826,43 @@ fn exhaustive_bool(ctx: &mut Ctx, max_clauses: usize) {
         }
     }
     check_queries(ctx, &spec, &b, &batch);
+    batch.clear();
     ctx.report.count_n("exhaustive-bool:queries", total);
+    // SHOULD family: every multiset of up to `max_should` SHOULD clauses over term leaves and the
+    // leaves that resolve to AllScorer / EmptyScorer by type, × every minimum_should_match in
+    // 0..=n+1, alone, with a MUST clause and with a MUST_NOT clause (the effective-minimum
+    // arithmetic of complex_scorer: raw minimum minus eliminated AllScorers)
+    let fam = vec![t("a"), t("b"), t("c"), Q::All, t("z"), Q::Exists(F_ID), Q::Empty, t("absentword")];
+    let max_should = if max_clauses >= 3 { 6 } else { 5 };
+    let mut fam_total = 0u64;
+    let mut idx: Vec<usize> = vec![];
+    fn multisets(k: usize, start: usize, n: usize, cur: &mut Vec<usize>, out: &mut Vec<Vec<usize>>) {
+        if cur.len() == k { out.push(cur.clone()); return; }
+        for i in start..n { cur.push(i); multisets(k, i, n, cur, out); cur.pop(); }
+    }
+    for k in 2..=max_should {
+        let mut sets = vec![];
+        multisets(k, 0, fam.len(), &mut idx, &mut sets);
+        for set in sets {
+            // keep the sets that contain at least one All/Empty-typed leaf (the others are covered
+            // by the generic enumeration above) and at most two copies of a leaf
+            if !set.iter().any(|i| *i >= 3) || set.windows(3).any(|w| w[0] == w[2]) { continue; }
+            let cs: Vec<(Oc, Q)> = set.iter().map(|i| (Oc::Should, fam[*i].clone())).collect();
+            for msm in 0..=k + 1 {
+                let variant = (fam_total % 3) as usize;
+                let mut c = cs.clone();
+                match variant { 1 => c.push((Oc::Must, t("a"))), 2 => c.insert(0, (Oc::MustNot, t("b"))), _ => {} }
+                batch.push(Q::Bool(c, Some(msm)));
+                fam_total += 1;
+                if batch.len() >= 24 {
+                    check_queries(ctx, &spec, &b, &batch);
+                    batch.clear();
+                }
+            }
+        }
+    }
+    check_queries(ctx, &spec, &b, &batch);
+    ctx.report.count_n("exhaustive-should-family:queries", fam_total);
 }
 
 pub fn replay(ctx: &mut Ctx, case: &serde_json::Value) {
@@ -1772,6 +1945,12 @@ pub fn run(ctx: &mut Ctx) {
         for k in 0..nq {
             let depth = match k % 8 { 0 => 0, 1 | 2 => 1, 3 | 4 | 5 => 2, 6 => 3, _ => 4 };
             qs.push(gen_query(&mut rng, depth, &pools));
+        }
+        // every positional leaf in seek-driven contexts (second MUST, MUST_NOT, …)
+        let n_ctx = match size_class { 3 => 2, 2 => 4, _ => 6 };
+        for _ in 0..n_ctx {
+            let leaf = positional_leaf(&mut rng, &pools);
+            qs.extend(context_queries(&mut rng, &pools, &leaf));
         }
         // keep hitting the known single-clause shortcut, nested too
         let leaf = gen_leaf(&mut rng, &pools);
